@@ -36,8 +36,8 @@ def a1(F, rep):
         rep.add("A1", "accepted:%s@%s" % (wl, wfn), True, "", "consumed by the reader in %s" % sorted(rfns))
     rep.add("A1", "inclusion:expand_zlib_chunks<=recreated_zlib_chunks", not res["violations"], "",
             "%d product states, writer labels %s" % (res["pairs"], sorted(map(str, res["wlabels"]))))
-    rep.floor("A1", "writer-event-sites", len(W.static_sites(PC + "expand_zlib_chunks")), 15)
-    rep.floor("A1", "reader-event-sites", len(R.static_sites(PC + "recreated_zlib_chunks")), 9)
+    rep.floor("A1", "writer-event-sites", len(W.static_sites(PC + "expand_zlib_chunks")), 8)
+    rep.floor("A1", "reader-event-sites", len(R.static_sites(PC + "recreated_zlib_chunks")), 5)
     tags = {l[2] for l in res["wlabels"] if l[0] == "bytes" and l[1] == 1 and l[2] is not None}
     if not res["violations"]:
         rep.floor("A1", "writer-ok-exit", res["ok_exits"], 1)
